@@ -175,7 +175,7 @@ type sconn struct {
 }
 
 func newWorld(events []ev) *world {
-	w := &world{events: events, cur: -1, notify: make(chan struct{}, 1), timeout: time.Second}
+	w := &world{events: events, cur: -1, notify: make(chan struct{}, 1), timeout: 3 * time.Second}
 	w.cond = sync.NewCond(&w.mu)
 	return w
 }
@@ -791,7 +791,14 @@ func (g *gen) connEvent(faulty bool) string {
 
 func main() {
 	hx.Main("C33", func(c *hx.Ctx) {
+		// Anomalies (time-outs) are expensive: once enough failing inputs have been
+		// recorded the remaining cases of the run are skipped.
+		anomalies := 0
 		emit := func(line string) {
+			if anomalies >= 12 {
+				c.Count("skipped-after-anomalies")
+				return
+			}
 			var oracle string
 			impl := hx.Try(func() string {
 				i, o := runCase(line)
@@ -800,6 +807,9 @@ func main() {
 			})
 			if strings.HasPrefix(impl, "panic:") {
 				oracle = "class=panic " + impl
+			}
+			if strings.HasPrefix(oracle, "class=anomaly") {
+				anomalies++
 			}
 			c.Case(line, impl, oracle, impl)
 		}
